@@ -69,7 +69,7 @@ static int load_mode(void)
 		xmp_context c;
 		line[strcspn(line, "\n")] = 0;
 		if (sscanf(line, "%7s %4095[^\n]", e, path) != 2) { puts("RET ?"); continue; }
-		memset(&ti, 0, sizeof ti);
+		memset(&ti, 'X', sizeof ti);	/* not zeroed: a test that fails must have emptied both strings itself */
 		c = xmp_create_context();
 		if (e[1] == 'M') buf = vf_read_file(path, &sz);
 		if (e[1] == 'F' || e[1] == 'C') f = fopen(path, "rb");
